@@ -72,6 +72,13 @@ def check_gmm_valid(ctx, g, X, count_floor, floors, what):
     ctx.check((var >= thr).all(), "%s: variances below variance_thresholds" % what, "variance-below-floor")
     ll = np.asarray(g.log_likelihood(X))
     ctx.finite(ll, "%s log-likelihood of the training rows" % what)
+    # the same rows handed over as a Dask array (two row blocks when there are two rows)
+    n = X.shape[0]
+    dl = np.asarray(g.log_likelihood(sut.dask_rows(X, [n] if n < 2 else [n // 2, n - n // 2])).compute())
+    ctx.finite(dl, "%s log-likelihood of the training rows (Dask input)" % what)
+    ctx.close(dl, ll, "%s log-likelihood: Dask input vs NumPy input" % what, rtol=1e-9, atol=1e-9)
+    if (w == 0).any():
+        ctx.event("component with weight exactly 0")
 
 
 # ---------------------------------------------------------------------------- k-means
